@@ -34,6 +34,7 @@ from .c05b import witness, _where
 from .c09b import H9, entry_weights, _s
 
 WIT = [witness(55), witness(56)]
+PROXMOD = 'odl/solvers/nonsmooth/proximal_operators.py'
 POS = {'sig', 'gam', 'lam', 'r0', 'r1', 'e0', 'e1', 'e2', 'e3', 'e4', 'e5', 'dd', 'w',
        'w0', 'w1', 'w2', 'w3', 'w4', 'w5', 'p0', 'p1', 'q'}
 
@@ -447,6 +448,95 @@ def ray_builders(model, inst, X):
             B['NuclearNorm[singular exp %s, %s]' % (et, pn)] = (
                 lambda I, e=e: inst(I, 'NuclearNorm', mat(), 1, e), pt,
                 'ray')
+    # ---- derived functionals (calculus rules on concrete functionals) ----
+    def pair(I, f, factory, sigmas=None):
+        return Rec('proxpair', f=f, proximal=factory, sigmas=sigmas,
+                   domain=I.getattr_value(f, 'domain'))
+
+    def fn(I, name):
+        return Func(model.ctx.func(PROXMOD, name), I.env_of(PROXMOD),
+                    None)
+    for w, t in ((None, 'unweighted'), (Rat.const(4), 'weight 4')):
+        def sp(w=w, n=4):
+            return NSpace((n,), 'float64', w)
+        g = [sig, -sig, 2 * sig, Rat.const(0)]
+        xg = [4 * sig, -sig / 2, 2 * sig, -3 * sig]
+        B['L1Norm.translated(g)[%s]' % t] = (
+            lambda I, sp=sp: I.call(I.getattr_value(inst(
+                I, 'L1Norm', sp()), 'translated'), [point(sp(), g)], {}),
+            xg, 'ray')
+        B['3 * L1Norm[%s]' % t] = (
+            lambda I, sp=sp: I.binop(ast.Mult, 3, inst(I, 'L1Norm', sp())),
+            [5 * sig, -4 * sig, 2 * sig, Rat.const(0)], 'ray')
+        B['L1Norm * 2[%s]' % t] = (
+            lambda I, sp=sp: I.binop(ast.Mult, inst(I, 'L1Norm', sp()), 2),
+            [5 * sig, -sig / 4, sig, Rat.const(0)], 'ray')
+        B['L1Norm + 5[%s]' % t] = (
+            lambda I, sp=sp: I.binop(ast.Add, inst(I, 'L1Norm', sp()), 5),
+            [5 * sig, -sig / 4, sig, Rat.const(0)], 'ray')
+        B['L2Norm.translated(g) * 2[%s]' % t] = (
+            lambda I, sp=sp: I.binop(ast.Mult, I.call(I.getattr_value(inst(
+                I, 'L2Norm', sp()), 'translated'), [point(sp(), g)], {}), 2),
+            [7 * sig / 2, 7 * sig / 2, sig, Rat.const(0)], 'ray')
+        B['FunctionalQuadraticPerturb(L1Norm, 1/(2 sigma), u)[%s]' % t] = (
+            lambda I, sp=sp: inst(
+                I, 'FunctionalQuadraticPerturb', inst(I, 'L1Norm', sp()),
+                quadratic_coeff=1 / (2 * sig),
+                linear_term=point(sp(), [Rat.const(1), Rat.const(-1),
+                                         Rat.const(0), Rat.const(2)])),
+            [5 * sig, -4 * sig, sig / 8, 2 * sig], 'ray')
+        B['BregmanDistance(L2NormSquared, y)[%s]' % t] = (
+            lambda I, sp=sp: (lambda f: inst(
+                I, 'BregmanDistance', f, point(sp(), g),
+                I.call(I.getattr_value(f, 'gradient'), [point(sp(), g)],
+                       {})))(inst(I, 'L2NormSquared', sp())),
+            [S('e0'), -S('e1'), 2 * S('e2'), Rat.const(0)], 'ray')
+        # the factories with their parameters lam and g, against the
+        # functional they are documented for
+        lam = Rat.const(3) / 2
+
+        def dist(I, cls, sp=sp):
+            return I.binop(ast.Mult, lam, I.call(I.getattr_value(inst(
+                I, cls, sp()), 'translated'), [point(sp(), g)], {}))
+        B['proximal_l1(lam, g)[%s]' % t] = (
+            lambda I, sp=sp, dist=dist: pair(I, dist(I, 'L1Norm'), I.call(
+                fn(I, 'proximal_l1'), [sp()], {'lam': lam,
+                                               'g': point(sp(), g)})),
+            [4 * sig, -sig / 2, 2 * sig, -3 * sig], 'ray')
+        B['proximal_l2(lam, g)[%s, far]' % t] = (
+            lambda I, sp=sp, dist=dist: pair(I, dist(I, 'L2Norm'), I.call(
+                fn(I, 'proximal_l2'), [sp()], {'lam': lam,
+                                               'g': point(sp(), g)})),
+            [sig + 6 * sig, -sig + 8 * sig, 2 * sig, Rat.const(0)], 'ray')
+        B['proximal_l2(lam, g)[%s, near]' % t] = (
+            lambda I, sp=sp, dist=dist: pair(I, dist(I, 'L2Norm'), I.call(
+                fn(I, 'proximal_l2'), [sp()], {'lam': lam,
+                                               'g': point(sp(), g)})),
+            [sig + sig / 10, -sig, 2 * sig, Rat.const(0)], 'ray')
+        B['proximal_l2_squared(lam, g)[%s]' % t] = (
+            lambda I, sp=sp, dist=dist: pair(
+                I, dist(I, 'L2NormSquared'), I.call(
+                    fn(I, 'proximal_l2_squared'), [sp()],
+                    {'lam': lam, 'g': point(sp(), g)})),
+            [S('e0'), -S('e1'), 2 * S('e2'), Rat.const(0)], 'ray')
+    # separable sum on a product space, scalar step and one step per part
+    def two():
+        return NSpace((2,), 'float64', Rat.const(2))
+
+    def sepsum(I):
+        return inst(I, 'SeparableSum', inst(I, 'L1Norm', two()),
+                    inst(I, 'L2NormSquared', two()))
+    B['SeparableSum(L1Norm, L2NormSquared)'] = (
+        sepsum, [3 * sig, -sig / 2, S('e0'), -S('e1')], 'ray')
+    B['SeparableSum(L1Norm, L2NormSquared)[steps sigma, 2 sigma]'] = (
+        lambda I: (lambda f: pair(I, f, I.getattr_value(f, 'proximal'),
+                                  sigmas=[sig, 2 * sig]))(sepsum(I)),
+        [3 * sig, -sig / 2, S('e0'), -S('e1')], 'ray')
+    for e, et in ((1, '1'), (2, '2'), (Opaque('np.inf'), 'inf')):
+        B['IndicatorNuclearNormUnitBall[singular exp %s]' % et] = (
+            lambda I, e=e: inst(I, 'IndicatorNuclearNormUnitBall', mat(),
+                                Opaque('np.inf'), e),
+            [Rat.const(4), zero, zero, Rat.const(3)], 'ray')
     return B
 
 
@@ -629,7 +719,18 @@ def run_directional(model, build, entries, sigma=None, wit=None,
     f = build(I)
     dom = I.getattr_value(f, 'domain')
     sig = S('sig') if sigma is None else sigma
-    prox = I.call(I.getattr_value(f, 'proximal'), [sig], {})
+    sigarg, sigs = sig, None
+    factory = I.getattr_value(f, 'proximal')
+    if isinstance(f, Rec) and f.kind == 'proxpair':
+        # a proximal factory called directly, with the functional it is
+        # documented for; optionally one step per component
+        if f.attrs.get('sigmas') is not None:
+            sigarg = list(f.attrs['sigmas'])
+            sigs = []
+            for part, sg_ in zip(dom.parts, sigarg):
+                sigs += [sg_] * len(entry_weights(part))
+        f = f.attrs['f']
+    prox = I.call(factory, [sigarg], {})
     p = I.call(prox, [mk_point(dom, entries)], {})
     if isinstance(p, NA):
         p = H.element(I, dom, p)
@@ -640,6 +741,10 @@ def run_directional(model, build, entries, sigma=None, wit=None,
                      % (j, _s(v))], ps, 0)
     xs = [PA.reduce_full(PA.ired(to_rat(v))) for v in entries]
     ws = entry_weights(dom)
+    if sigs is not None:
+        # sum_i ||z_i - x_i||^2 / (2 sigma_i): fold the steps into the
+        # weights, relative to sig
+        ws = [w * sig / sj for w, sj in zip(ws, sigs)]
     if len(ps) != len(xs):
         return ['the result has %d entries' % len(ps)], ps, 0
     fp = I.call(f, [mk_point(dom, ps)], {})
@@ -759,12 +864,17 @@ def run(rep, model):
     B = builders(model)
     _JOB['model'], _JOB['builders'] = model, B
     names = list(B)
+    import gc
+    gc.collect()
+    gc.freeze()           # keep the forked workers from touching old pages
     try:
         ctx = mp.get_context('fork')
         with ctx.Pool(min(16, os.cpu_count() or 1)) as pool:
             results = pool.map(_job, names, chunksize=1)
     except (OSError, ValueError):
         results = [_job(nm) for nm in names]
+    finally:
+        gc.unfreeze()
     n = nray = 0
     for name, out in results:
         b, entries, kind = B[name]
